@@ -210,7 +210,39 @@ impl Property for C10 {
             Tier::Thorough => 20_000_000,
         }
     }
-    fn generate(&self, seed: u64, run: u64, _tier: Tier, _avoid: &BTreeSet<String>) -> MacCase {
+    fn generate(&self, seed: u64, run: u64, tier: Tier, avoid: &BTreeSet<String>) -> MacCase {
+        // one run in five borrows another property"s generator (same case type), so that this oracle also
+        // judges histories of shapes its own generator does not produce
+        if let Some(c) = super::cross_generate("C10", &["C04", "C07", "C08", "C09", "C11", "C12"], seed, run, tier, avoid) {
+            return c;
+        }
+        self.own_generate(seed, run, tier, avoid)
+    }
+    fn execute(&self, case: &MacCase, want_trace: bool) -> Outcome {
+        let mut mon = Mon;
+        let out = run_case(case, &mut mon, want_trace);
+        Outcome { violation: out.violation, stats: out.stats, trace: out.trace }
+    }
+    fn self_test(&self) -> Result<(), String> {
+        crate::self_test_refs()
+    }
+    fn expected_probes(&self, _tier: Tier) -> Vec<&'static str> {
+        vec![
+            "probe.rx1-checked",
+            "probe.rx2-checked",
+            "probe.rx1-time-checked",
+            "probe.rx2-time-checked",
+            "probe.rxc-checked",
+            "probe.rx2-override-in-force",
+            "probe.dlchannel-mapping-in-force",
+            "probe.rx-delay-above-1s",
+            "probe.datarate-changed-between-tx-and-rx1",
+        ]
+    }
+}
+
+impl C10 {
+    pub fn own_generate(&self, seed: u64, run: u64, _tier: Tier, _avoid: &BTreeSet<String>) -> MacCase {
         let mut r = Rng::new(run_seed(seed, "C10", run));
         let cfg = gen_cfg(&mut r, &CfgProfile { frontends: ALL_FRONTENDS, otaa_pct: 40, boundary_counters_pct: 5, join_bias_pct: 40 });
         let mut ops = Vec::new();
@@ -245,26 +277,5 @@ impl Property for C10 {
             }
         }
         MacCase { cfg, ops, knob: 0 }
-    }
-    fn execute(&self, case: &MacCase, want_trace: bool) -> Outcome {
-        let mut mon = Mon;
-        let out = run_case(case, &mut mon, want_trace);
-        Outcome { violation: out.violation, stats: out.stats, trace: out.trace }
-    }
-    fn self_test(&self) -> Result<(), String> {
-        crate::self_test_refs()
-    }
-    fn expected_probes(&self, _tier: Tier) -> Vec<&'static str> {
-        vec![
-            "probe.rx1-checked",
-            "probe.rx2-checked",
-            "probe.rx1-time-checked",
-            "probe.rx2-time-checked",
-            "probe.rxc-checked",
-            "probe.rx2-override-in-force",
-            "probe.dlchannel-mapping-in-force",
-            "probe.rx-delay-above-1s",
-            "probe.datarate-changed-between-tx-and-rx1",
-        ]
     }
 }
